@@ -205,6 +205,36 @@ class KeyEval:
                         alts.append(self.keys(rt.value, t, env2, depth + 1))
                 return self.alt(alts)
             raise Unknown(f'call {short(expr, 60)} in {func.qualname} not modelled')
+        if isinstance(expr, ast.DictComp) and len(expr.generators) == 1 and isinstance(expr.generators[0].target, ast.Tuple) \
+                and len(expr.generators[0].target.elts) == 2 and all(isinstance(e, ast.Name) for e in expr.generators[0].target.elts):
+            # {k: v for k, v in X.items() if k [not] in L}   /   {MAP[k]: v for ...}
+            gen = expr.generators[0]
+            kvar, vvar = (e.id for e in gen.target.elts)
+            if not (isinstance(gen.iter, ast.Call) and isinstance(gen.iter.func, ast.Attribute) and gen.iter.func.attr == 'items' and not gen.iter.args):
+                raise Unknown(f'dict comprehension over {norm(gen.iter)}')
+            if not (isinstance(expr.value, ast.Name) and expr.value.id == vvar):
+                raise Unknown(f'dict comprehension value {norm(expr.value)}')
+            may, must, ent = self.keys(gen.iter.func.value, func, env, depth + 1)
+            for cond in gen.ifs:
+                conds = cond.values if isinstance(cond, ast.BoolOp) and isinstance(cond.op, ast.And) else [cond]
+                for cnd in conds:
+                    if isinstance(cnd, ast.Compare) and len(cnd.ops) == 1 and isinstance(cnd.left, ast.Name) and cnd.left.id == kvar \
+                            and isinstance(cnd.ops[0], (ast.In, ast.NotIn)):
+                        L = self.const(cnd.comparators[0], func)
+                        Lk = set(L.keys()) if isinstance(L, dict) else set(L)
+                        inside = isinstance(cnd.ops[0], ast.In)
+                        may = {k for k in may if (k in Lk) == inside}
+                        must = {k for k in must if (k in Lk) == inside}
+                    else:
+                        raise Unknown(f'comprehension condition {norm(cnd)}')
+            if isinstance(expr.key, ast.Name) and expr.key.id == kvar:
+                return may, must, ent
+            if isinstance(expr.key, ast.Subscript) and isinstance(expr.key.slice, ast.Name) and expr.key.slice.id == kvar:
+                M = self.const(expr.key.value, func)
+                if not isinstance(M, dict):
+                    raise Unknown(f'{norm(expr.key.value)} is not a dict')
+                return {M[k] for k in may if k in M}, {M[k] for k in must if k in M}, ent
+            raise Unknown(f'dict comprehension key {norm(expr.key)}')
         if isinstance(expr, ast.DictComp) and len(expr.generators) == 1:
             gen = expr.generators[0]
             if isinstance(gen.target, ast.Name) and isinstance(expr.key, ast.Name) and expr.key.id == gen.target.id:
